@@ -99,6 +99,14 @@ def check(run):
                 if lg and lg.startswith("S F{") and " EOF #" in lg:
                     g = {"data": tw, "dump": lg[2:].split(" #")[0]}
                     pool.append(g); twin_pairs.append((f, g)); run.count("pool: twin files")
+        # every pool file (library-written, foreign-writer layouts, twins) through the MODEL of the read side of a block
+        if run.driver_ok:
+            pl = [f["data"] for f in pool if len(f["data"]) < 30000]
+            for d_, a_, q_ in zip(pl, G.run_rd(["rd s " + d.hex() for d in pl]), G.run_driver(["rdq " + d.hex() for d in pl])):
+                run.count("read-model: pool file resolved by Model.ReadBlock")
+                if not E.same_records(q_, a_) and len(run.model_fail) < 5:
+                    run.model_fail.append(("rdq " + d_.hex()[:6000], {"correspondence": "Model.ReadBlock vs the library reader on a pool file",
+                                           "model": (E.blocks_part(q_) or "")[:1000], "library": (E.blocks_part(a_) or "")[:1000]}))
         cases = []
         for t in range(ntuples):
             members = []
@@ -128,6 +136,7 @@ def check(run):
             cases.append([("ok", g["data"], g["dump"]), ("ok", f["data"], f["dump"]), ("ok", g["data"], g["dump"])])
         lines = []
         metas = []
+        mrgb_jobs = []
         for ci, members in enumerate(cases):
             d = os.path.join(tmp, "t%d" % ci); os.makedirs(d)
             names, files = [], {}
@@ -229,7 +238,56 @@ def check(run):
                             seen.add(sig)
                             run.spec_fail.append((sig, "cdns-itemcount %s <file %s>" % (" ".join(opts), open(out, "rb").read().hex()[:4000]),
                                                   {"stdout": (rr.stdout if rr else "timeout")[:400], "expected numbers": want[:60]}))
+            # the concrete merged blocks: for merges of readable, complete inputs the bytes of every block in the output must be the
+            # block the model re-writes (Model.ReadBlock.ofVal -> Builder.toVal with the shifted parameters index: the value
+            # Props.C18.merged_block_same_records speaks about), up to the order of the address-event array
+            if expected is not None and not bad and run.driver_ok and all(k == "ok" for k, _, _ in files.values()) and len(mrgb_jobs) < (40 if quick else 1000):
+                try:
+                    top, _e = cborgen.parse(open(out, "rb").read())
+                    got_blocks = [open(out, "rb").read()[c.start:c.end] for c in top.children[2].children]
+                except Exception:
+                    got_blocks = None
+                # offsets: the first accepted input keeps its indexes, every later accepted input is appended
+                accepted = []
+                for b in [x for x in bs.split(",") if x]:
+                    pass
+                offs, total, seen_names, first_ver = {}, 0, [], None
+                for n in names:
+                    kind, data, dump = files[n]
+                    fdump, ps_, bs_, tail_ = split_dump(dump)
+                    ver_ = re.match(r"F\{[^}]*\}", fdump).group(0)
+                    if first_ver is None:
+                        first_ver = ver_; offs[n] = 0; total = len(ps_)
+                    elif ver_ != first_ver:
+                        offs[n] = None
+                    else:
+                        offs[n] = total; total += len(ps_)           # (a name listed twice: the later entry of block_indexes wins)
+                if got_blocks is not None:
+                    mrgb_jobs.append((case_txt, [(n, offs[n], files[n][1]) for n in names if offs[n] is not None], got_blocks))
             shutil.rmtree(os.path.dirname(out), ignore_errors=True)
+        # run the model on the collected merges
+        lines_m = []
+        for case_txt, parts, got_blocks in mrgb_jobs:
+            for n, off, data in parts:
+                lines_m.append("mrgb %d %s" % (off, data.hex()))
+        ans_m = G.run_driver(lines_m) if lines_m else []
+        k = 0
+        for case_txt, parts, got_blocks in mrgb_jobs:
+            exp_blocks, okm = [], True
+            for n, off, data in parts:
+                a = ans_m[k]; k += 1
+                if a is None or not a.startswith("M"):
+                    okm = False; continue
+                exp_blocks += [bytes.fromhex(h) for h in a[2:].split(",") if h]
+            if not okm:
+                continue
+            run.count("merged blocks compared with the model's re-written blocks (bytes)")
+            same = len(exp_blocks) == len(got_blocks) and all(E._canon_block(x) == E._canon_block(y) for x, y in zip(exp_blocks, got_blocks))
+            if not same and len(run.model_fail) < 5:
+                j = next((i for i in range(min(len(exp_blocks), len(got_blocks))) if E._canon_block(exp_blocks[i]) != E._canon_block(got_blocks[i])), -1)
+                run.model_fail.append((case_txt[:6000], {"correspondence": "blocks cdns-merge wrote vs Model.ReadBlock.ofVal + Builder.toVal with the shifted index (mrgb)",
+                                                        "blocks": [len(exp_blocks), len(got_blocks)], "first differing block": j,
+                                                        "model": exp_blocks[j].hex()[:1500] if 0 <= j else "", "tool": got_blocks[j].hex()[:1500] if 0 <= j else ""}))
     finally:
         shutil.rmtree(tmp, ignore_errors=True)
 
